@@ -4,3 +4,8 @@ add('C11', 'exploration',
     'Trusted: the harness reference (brute-force closest-K, tiling check), the per-address liveness model behind the probe seam, asyncio FIFO ready-queue order (never permuted). Concurrent histories assert structure only.',
     'deterministic simulation: seeded operation/fault histories on a virtual-time loop with invariant + reference-model oracles',
     'DESIGN.md §7 C11')
+add('C12', 'exploration',
+    'Seeded search over whole DHT networks of 2..40 real Nodes on a simulated datagram network: join orders, latency up to 2 s one way, duplication and reordering in the loss-free family (hit until 24 h / miss afterwards, paging with 1..100 announcers), and loss 0..60 %, dead and hostile subsets (25 scripted reply rewrites) in the faulty family (termination within RPC_TIMEOUT x (find requests + 1), validity of every yielded contact/peer). Sampling, not proof.',
+    'Trusted: the datagram network model (loss, duplication, reordering, dead nodes; no fragmentation), the finite adversary (fabricated contacts are silent, at most 12 claimed pages), clock jumps standing in for long idle periods in the quick tier. Hit guarantee asserted only in the regime DESIGN.md §7 C12 states.',
+    'deterministic simulation: multi-node virtual-time network with seeded delivery schedules, fault injection (loss, dead nodes, clock jumps, hostile replies) and history oracles',
+    'DESIGN.md §7 C12')
